@@ -31,6 +31,14 @@ CLAIMS = {
          "Structural necessary conditions: every generated move that is played is filtered by InCheck(mover) before any descent; the two generator halves call every generator method exactly as often as needed with complementary target masks; every attack pattern is paired with the piece kinds geometry dictates; castling masks/emptiness/destination/rights are geometrically consistent; promotions enumerate exactly N,B,R,Q. A violation implies a position in which an illegal move is playable or a legal move is missing/duplicated. Equality of the generated set with FIDE move generation is not decided (perft tests + C12 remain the guard for the emitted squares).",
          "Trusts go/ssa; BitBoardFromSquares/Castle helper semantics; does not decide that each generator emits the right squares.",
          "DESIGN.md §3 C01, §3.0"),
+ "C05": ("exhaustive path enumeration of the loop-free acceptor with interval/atom abstraction of its branch conditions, AST constant extraction and sibling comparison against the generator's castling data, bit-field layout evaluation, dominance of the two gates, all-origins dataflow of MakeMove arguments",
+         "Structural necessary conditions: on every feasible accepting path of IsPseudoLegal the promotion bits, pawn direction, push/capture geometry and emptiness tests are constrained the way the generator emits moves; the four castling cases agree with shortCastle/longCastle on rights, empty set, unattacked set and squares; the move word's fields do not overlap; table moves and GUI moves reach the board only through the gate. A violation implies an encoding accepted but not generated (or vice versa). Found and fixed: F-1 (promotion bits accepted off the seventh rank / out of range). Slider and leaper acceptance beyond the pairing and occupancy arguments is not decided.",
+         "Trusts go/ssa; path feasibility is decided only for contradictions among the recognised atoms (over-approximation of feasible paths otherwise).",
+         "DESIGN.md §3 C05, §4 F-1"),
+ "C12": ("constant evaluation of the literal attack tables with exhaustive enumeration of every mask subset against the checker's reference geometry; SSA shape recognition of lookup and fill; effect analysis for immutability; def-use check of the InBetween consumer",
+         "Data clauses decided exhaustively from the source literals: magics are collision-free (up to equal attack sets) for every subset of every mask and indices stay in range; leaper tables equal geometry on all 64 squares; fill and lookup index agree (replayed on the literals); tables are immutable after initialisation; the InBetween consumer masks both ends. The ray walkers, pawn shift expressions and initInBetween are code and are not decided.",
+         "Trusts go/ssa and go/constant; the checker's own 40-line reference ray walker and leaper offsets; R4 assumes calc*Attacks compute the ray walk.",
+         "DESIGN.md §3 C12"),
 }
 
 NOT_YET = "no static rule of DESIGN.md §3 for this property is built in this revision yet; not claimed"
